@@ -94,6 +94,10 @@ def run(prog: Program, rep, thorough: bool) -> None:
         env[p] = S(f'${p}')
     for n, fld in lm.items():
         env[n] = S(f'cfg.{fld}')
+    from .c18 import config_aliases
+    for n in config_aliases(F.func):
+        if '_config' in st.heap[selfv.oid]:
+            env[n] = st.heap[selfv.oid]['_config']
     # any other local assigned before the loop and read inside it
     loop_reads = {n.id for n in ast.walk(F.loop) if isinstance(n, ast.Name) and isinstance(n.ctx, ast.Load)}
     for n in loop_reads:
